@@ -18,6 +18,10 @@ class InjectedFault(OSError):
     pass
 
 
+class InjectedInterrupt(BaseException):
+    """an interruption that is NOT an Exception (Ctrl-C, SystemExit, a kill while Python unwinds): `except Exception` clean-up does not see it"""
+
+
 class File:
     def __init__(self, exists=True, size=0, content=None, kind="file"):
         self.exists = exists
@@ -79,7 +83,7 @@ class FakeFS:
             self.nmut += 1
         self.trace.append((k, op, str(path), kw))
         if self.fault_at is not None and k == self.fault_at:
-            raise InjectedFault(f"injected fault at operation {k}: {op} {path}")
+            raise getattr(self, "fault_exc", InjectedFault)(f"injected fault at operation {k}: {op} {path}")
         if self.fault_hook is not None:
             self.fault_hook(k, op, str(path))
 
